@@ -44,7 +44,11 @@ THEOREMS = [
     # definitions regenerated from Box.py on every run = the hand-written model (Proofs/C01_Source.lean)
     'C01.src_state_protocol', 'C01.src_r2c', 'C01.src_c2r', 'C01.src_cacheFill', 'C01.src_obj_c2r', 'C01.src_planes',
     'C01.src_volume', 'C01.src_isLammpsNorm', 'C01.src_lammps_getters', 'C01.src_abc_sq', 'C01.src_set_lengths',
-    'C01.src_set_hi_los', 'C01.src_set_abc', 'C01.src_angles', 'C01.src_below', 'C01.src_inside',
+    'C01.src_set_hi_los', 'C01.src_set_abc', 'C01.src_angles', 'C01.src_below', 'C01.src_inside', 'C01.src_set_dispatch',
+    # re-definition of an existing object, keyword dispatch of Box.set, volume of left-handed cells (Proofs/C01_Dispatch.lean)
+    'C01.redefine_forgets_previous_cell', 'C01.obj_redefine_eq_fresh', 'C01.obj_rejected_unchanged',
+    'C01.origin_only_keeps_vects', 'C01.vects_only_keeps_origin', 'C01.reset_is_unit_cell', 'C01.volume_pos_of_det_ne_zero',
+    'C01.set_dispatch_unit_iff', 'C01.set_dispatch_sound', 'C01.set_dispatch_complete', 'C01.positional_order',
 ]
 PARTIAL = {
     'angles_in_degrees': 'read-back of lengths and angles is proved in squared / cosine form over every ordered field '
@@ -632,6 +636,78 @@ def translate():
     A('')
     A('end formulas')
     A('')
+    # ---- Box.set keyword dispatch, signatures of the set_* methods, __init__, family constructors ----------------
+    sb_ = body('set')
+    if not (len(sb_) == 1 and isinstance(sb_[0], ast.If) and ast.unparse(sb_[0].test) == 'len(kwargs) == 0'):
+        fail('set() is not one if / elif chain starting with `len(kwargs) == 0`')
+    if meths['set'].args.args[1:] or meths['set'].args.vararg or meths['set'].args.kwonlyargs or \
+            meths['set'].args.kwarg is None or meths['set'].args.kwarg.arg != 'kwargs':
+        fail('set() signature is not (self, **kwargs)')
+    unit_ok = [ast.unparse(st) for st in sb_[0].body] == ['self.vects = np.eye(3)', 'self.origin = np.zeros(3)']
+    INLINE = {
+        'vects': ["vects = kwargs.pop('vects')", "origin = kwargs.pop('origin', [0.0, 0.0, 0.0])",
+                  "assert len(kwargs) == 0, 'Invalid arguments'", 'self.vects = vects', 'self.origin = origin'],
+        'origin': ["origin = kwargs.pop('origin')", "assert len(kwargs) == 0, 'Invalid arguments'", 'self.origin = origin'],
+    }
+    chain = []
+    node = sb_[0]
+    else_ok = False
+    while True:
+        if len(node.orelse) == 1 and isinstance(node.orelse[0], ast.If):
+            node = node.orelse[0]
+            m = re.fullmatch(r"'(\w+)' in kwargs", ast.unparse(node.test))
+            if m is None:
+                fail(f'set(): branch test {ast.unparse(node.test)}')
+            key = m.group(1)
+            stm = [ast.unparse(st) for st in node.body]
+            mm = re.fullmatch(r'self\.(set_\w+)\(\*\*kwargs\)', stm[0]) if len(stm) == 1 else None
+            if mm:
+                chain.append((key, mm.group(1)))
+            elif key in INLINE and stm == INLINE[key]:
+                chain.append((key, 'inline:' + key))
+            else:
+                chain.append((key, 'inline:?'))
+        else:
+            else_ok = [ast.unparse(st) for st in node.orelse] == ["raise TypeError('Invalid arguments')"]
+            break
+    A('/-- `Box.set`: the "no keywords" branch is `self.vects = np.eye(3); self.origin = np.zeros(3)`. -/')
+    A(f'def setUnitBranch : Bool := {"true" if unit_ok else "false"}')
+    A('/-- the `elif \'key\' in kwargs` chain of `Box.set`: (key, `set_…` called with `**kwargs` | `inline:vects` | `inline:origin`:')
+    A('    pop the keywords, `assert len(kwargs) == 0`, assign through the property setters, default origin `[0.0, 0.0, 0.0]`). -/')
+    A('def setChainSrc : List (String × String) := [' + ', '.join(f'("{k}", "{a}")' for k, a in chain) + ']')
+    A('/-- the chain ends in `else: raise TypeError`. -/')
+    A(f'def setElseRaisesTypeError : Bool := {"true" if else_ok else "false"}')
+    sigs, dflts = [], []
+    for mname in ('set_vectors', 'set_abc', 'set_lengths', 'set_hi_los'):
+        fa = meths[mname].args if mname in meths else fail(f'{mname} missing')
+        if fa.vararg or fa.kwarg or fa.kwonlyargs or fa.posonlyargs or not fa.args or fa.args[0].arg != 'self':
+            fail(f'{mname}: signature is not plain positional-or-keyword parameters')
+        names = [x.arg for x in fa.args[1:]]
+        nd = len(fa.defaults)
+        ds = [None] * (len(names) - nd) + [ast.unparse(d) for d in fa.defaults]
+        sigs.append((mname, [(n, d is not None) for n, d in zip(names, ds)]))
+        dflts.append((mname, [(n, d) for n, d in zip(names, ds) if d is not None]))
+    A('/-- parameters of the `set_*` methods after `self`, in signature order: (name, has a default). -/')
+    A('def signatures : List (String × List (String × Bool)) := [' + ', '.join(
+        f'("{m}", [' + ', '.join(f'("{n}", {"true" if d else "false"})' for n, d in ps) + '])' for m, ps in sigs) + ']')
+    A('/-- their default values, as written. -/')
+    A('def defaults : List (String × List (String × String)) := [' + ', '.join(
+        f'("{m}", [' + ', '.join(f'("{n}", "{d}")' for n, d in ps) + '])' for m, ps in dflts) + ']')
+    ib_ = [ast.unparse(st) for st in body('__init__')]
+    init_ok = ib_[:3] == ["self.__vects = np.eye(3, dtype='float64')", "self.__origin = np.zeros(3, dtype='float64')",
+                          'self.__reciprocal_vects = None'] and len(ib_) == 4 and ib_[3].startswith('if len(kwargs) > 0:')
+    A('/-- `__init__` gives every instance newly allocated arrays (`np.eye(3, …)`, `np.zeros(3, …)`), an empty cache, and then')
+    A('    hands the keywords to `model` / `set`. -/')
+    A(f'def initFreshState : Bool := {"true" if init_ok else "false"}')
+    fams = []
+    for fname in ('cubic', 'hexagonal', 'tetragonal', 'trigonal', 'orthorhombic', 'monoclinic', 'triclinic'):
+        fb = body(fname)
+        if not fb or not isinstance(fb[-1], ast.Return):
+            fail(f'{fname} does not end in return')
+        fams.append((fname, ', '.join(x.arg for x in meths[fname].args.args[1:]), ast.unparse(fb[-1].value)))
+    A('/-- the crystal-family constructors: (name, parameters, what they return). -/')
+    A('def familyCalls : List (String × String × String) := [' + ', '.join(f'("{n}", "{a}", "{c}")' for n, a, c in fams) + ']')
+    A('')
     A('end Atomman.Generated.BoxSource')
     return {'BoxSource': '\n'.join(out) + '\n'}
 
@@ -826,8 +902,21 @@ def apply_spec(box, spec):
         box.vects = kw['vects']
         box.origin = kw.get('origin', [0.0, 0.0, 0.0])
         return box
+    if via == 'positional':   # the documented parameter order, optional parameters up to the last one given
+        order = POSITIONAL[k]
+        last = max(i for i, nm in enumerate(order) if nm in kw)
+        getattr(box, meth)(*[kw[nm] if nm in kw else POSITIONAL_DEFAULTS[nm] for nm in order[:last + 1]])
+        return box
     getattr(box, meth)(**kw)
     return box
+
+
+# parameter order of the set_* methods as documented (docstrings of Box.set_vectors / set_lengths / set_hi_los / set_abc)
+POSITIONAL = {'vectors': ['avect', 'bvect', 'cvect', 'origin'],
+              'lengths': ['lx', 'ly', 'lz', 'xy', 'xz', 'yz', 'origin'],
+              'hilos': ['xlo', 'xhi', 'ylo', 'yhi', 'zlo', 'zhi', 'xy', 'xz', 'yz'],
+              'abc': ['a', 'b', 'c', 'alpha', 'beta', 'gamma', 'origin']}
+POSITIONAL_DEFAULTS = {'xy': 0.0, 'xz': 0.0, 'yz': 0.0, 'alpha': 90.0, 'beta': 90.0, 'gamma': 90.0, 'origin': None}
 
 
 # ----------------------------------------------------------------------------------------
@@ -842,11 +931,11 @@ def _pos_dy(rng, hi=8.0, bits=3):
     return rng.randint(1, int(hi * q)) / q
 
 
-def gen_spec(rng, regime, allow_left=False, kinds=None, origin=None, ints=None, nonzero_origin=False):
+def gen_spec(rng, regime, allow_left=False, kinds=None, origin=None, ints=None, nonzero_origin=False, tiny=False):
     """random cell definition. regime: 'grid' | 'float'.  origin: True / False = with / without the optional origin
     (None: random); ints: integer-valued definition given as python ints (integer arrays with container 'array')."""
     kind = rng.choice(kinds or ['vects', 'vectors', 'lengths', 'hilos', 'abc', 'lengths', 'hilos'])
-    via = rng.choice(['ctor', 'set', 'method'])
+    via = rng.choice(['ctor', 'set', 'method', 'ctor', 'set', 'method', 'positional'])
     g = regime == 'grid'
     ints = g and (rng.random() < 0.15 if ints is None else ints)   # python ints / integer arrays instead of floats
     if ints:
@@ -886,10 +975,10 @@ def gen_spec(rng, regime, allow_left=False, kinds=None, origin=None, ints=None, 
                 np = _np()
                 if np.linalg.cond(np.array(V)) > 200:
                     continue
-                if rng.random() < 0.1:        # entries around the setter's clean-up threshold (1e-9 of the largest)
+                if rng.random() < (0.6 if tiny else 0.1):        # entries around the setter's clean-up threshold (1e-9 of the largest)
                     big = max(abs(x) for r in V for x in r)
                     for _ in range(rng.randint(1, 2)):
-                        V[rng.randrange(3)][rng.randrange(3)] = rng.choice([-1, 1]) * big * 10 ** rng.uniform(-12, -7)
+                        V[rng.randrange(3)][rng.randrange(3)] = rng.choice([-1, 1]) * big * 10 ** rng.uniform(-12, -4)
                     if abs(np.linalg.det(np.array(V))) < 1e-3 * big ** 3 or np.linalg.det(np.array(V)) < 0 and not allow_left:
                         continue
             break
@@ -913,10 +1002,10 @@ def gen_spec(rng, regime, allow_left=False, kinds=None, origin=None, ints=None, 
         for t in ('xy', 'xz', 'yz'):
             if rng.random() < 0.75:
                 kw[t] = num(-4, 4)
-    if kind in ('lengths', 'hilos') and not g and rng.random() < 0.08:     # a tilt around the clean-up threshold
+    if kind in ('lengths', 'hilos') and not g and rng.random() < (0.6 if tiny else 0.08):     # a tilt around the clean-up threshold
         big = max(abs(kw.get(k, 0.0)) for k in ('lx', 'ly', 'lz', 'xy', 'xz', 'yz')) if kind == 'lengths' else \
             max(kw['xhi'] - kw['xlo'], kw['yhi'] - kw['ylo'], kw['zhi'] - kw['zlo'], *(abs(kw.get(k, 0.0)) for k in ('xy', 'xz', 'yz')))
-        kw[rng.choice(['xy', 'xz', 'yz'])] = rng.choice([-1, 1]) * big * 10 ** rng.uniform(-12, -7)
+        kw[rng.choice(['xy', 'xz', 'yz'])] = rng.choice([-1, 1]) * big * 10 ** rng.uniform(-12, -4)
     if kind == 'abc':
         kw, fam = gen_abc(rng, g, ints)
         if fam is not None and rng.random() < 0.5 and origin_req is not True:
@@ -1107,7 +1196,7 @@ def _angles(rng, ints=False):
         if ints:
             al, be, ga = (rng.choice([60, 90, 120, 75, 100, 45, 135]) for _ in range(3))
         else:
-            al, be, ga = (rng.choice([60.0, 90.0, 120.0, 75.0, 100.0, rng.uniform(40, 140)]) for _ in range(3))
+            al, be, ga = (rng.choice([60.0, 90.0, 120.0, 75.0, 100.0, rng.uniform(40, 140), rng.uniform(15, 165)]) for _ in range(3))
         ca, cb, cg = (math.cos(math.radians(x)) for x in (al, be, ga))
         vol2 = 1 - ca * ca - cb * cb - cg * cg + 2 * ca * cb * cg
         if vol2 > 0.05:
@@ -1575,8 +1664,128 @@ def _try_c2r(box, p):
         return _cls(e)
 
 
+# ----------------------------------------------------------------------------------------
+# keyword dispatch of Box.set(**kwargs) / Box(**kwargs): which keyword-name sets are which parameter set
+# ----------------------------------------------------------------------------------------
+KW_FAMILIES = {
+    'vects': (['vects'], ['origin']),
+    'vectors': (['avect', 'bvect', 'cvect'], ['origin']),
+    'lengths': (['lx', 'ly', 'lz'], ['xy', 'xz', 'yz', 'origin']),
+    'hilos': (['xlo', 'xhi', 'ylo', 'yhi', 'zlo', 'zhi'], ['xy', 'xz', 'yz']),
+    'abc': (['a', 'b', 'c'], ['alpha', 'beta', 'gamma', 'origin']),
+    'origin': (['origin'], []),
+}
+
+
+def _kw_values():
+    """a valid value for every keyword; each family describes a *different* cell, so the resulting state tells
+    which branch of `set` was taken."""
+    vals = {
+        'vects': [[2.0, 0.0, 0.0], [0.5, 3.0, 0.0], [0.25, -0.75, 4.0]],
+        'avect': [2.5, 0.0, 0.0], 'bvect': [-0.5, 3.5, 0.0], 'cvect': [0.75, 0.25, 4.5],
+        'lx': 3.0, 'ly': 4.0, 'lz': 5.0, 'xy': -0.5, 'xz': 0.25, 'yz': 1.5,
+        'xlo': -1.0, 'xhi': 2.5, 'ylo': 0.5, 'yhi': 5.0, 'zlo': -2.0, 'zhi': 3.5,
+        'a': 3.25, 'b': 4.5, 'c': 5.75, 'alpha': 80.0, 'beta': 95.0, 'gamma': 105.0,
+        'origin': [0.5, -1.25, 2.0], 'foo': 1.0,
+    }
+    return vals
+
+
+def _kw_expected_state(fam, kw, prior):
+    """state (vects, origin) the documented meaning of parameter set `fam` gives, built through the set_* method /
+    the attribute setters directly (no keyword dispatch involved)."""
+    import atomman as am
+    b = am.Box()
+    b.vects, b.origin = prior
+    if fam == 'unit':
+        b.vects = [[1.0, 0.0, 0.0], [0.0, 1.0, 0.0], [0.0, 0.0, 1.0]]
+        b.origin = [0.0, 0.0, 0.0]
+    elif fam == 'vects':
+        b.vects = kw['vects']
+        b.origin = kw.get('origin', [0.0, 0.0, 0.0])
+    elif fam == 'origin':
+        b.origin = kw['origin']
+    else:
+        names = KW_FAMILIES[fam][0] + KW_FAMILIES[fam][1]
+        getattr(b, {'vectors': 'set_vectors', 'lengths': 'set_lengths', 'hilos': 'set_hi_los', 'abc': 'set_abc'}[fam])(
+            **{k: v for k, v in kw.items() if k in names})
+    return b.vects, b.origin
+
+
+def _kw_cases(rng, n):
+    fams = list(KW_FAMILIES)
+    allnames = sorted({x for r, o in KW_FAMILIES.values() for x in r + o} | {'foo'})
+    out = [[]]
+    for f in fams:                              # every documented set: all subsets of the optional keywords
+        req, opt = KW_FAMILIES[f]
+        for mask in range(1 << len(opt)):
+            out.append(req + [o for i, o in enumerate(opt) if mask >> i & 1])
+    for _ in range(n):
+        r = rng.random()
+        f = rng.choice(fams)
+        req, opt = KW_FAMILIES[f]
+        base = req + [o for o in opt if rng.random() < 0.5]
+        if r < 0.25 and len(req) > 0:           # a mandatory keyword missing
+            base = [k for k in base if k != rng.choice(req)]
+        elif r < 0.5:                           # a keyword of another parameter set (or an unknown one) mixed in
+            base = base + [rng.choice([k for k in allnames if k not in base])]
+        elif r < 0.7:                           # two parameter sets at once
+            g = rng.choice(fams)
+            base = base + [k for k in KW_FAMILIES[g][0] + [o for o in KW_FAMILIES[g][1] if rng.random() < 0.3] if k not in base]
+        else:                                   # any subset of all names
+            base = rng.sample(allnames, rng.randint(1, 5))
+        rng.shuffle(base)
+        out.append(base)
+    return out
+
+
+def _kw_correspond(ctx, rng):
+    import atomman as am
+    np = _np()
+    vals = _kw_values()
+    cases = _kw_cases(rng, ctx.n(150, 3000))
+    lines, impls, infos = [], [], []
+    for names in cases:
+        kw = {k: vals[k] for k in names}
+        how = rng.choice(['ctor', 'set'])
+        prior = ([[1.0, 0.0, 0.0], [0.0, 1.0, 0.0], [0.0, 0.0, 1.0]], [0.0, 0.0, 0.0]) if how == 'ctor' else \
+            ([[6.0, 0.0, 0.0], [1.0, 7.0, 0.0], [-1.5, 0.5, 8.0]], [3.0, -4.0, 5.5])
+        try:
+            if how == 'ctor':
+                box = am.Box(**kw)
+            else:
+                box = am.Box()
+                box.vects, box.origin = prior
+                box.set(**kw)
+            impl = 'ok:?'
+            for fam in ['unit'] + list(KW_FAMILIES):
+                req = KW_FAMILIES[fam][0] if fam != 'unit' else []
+                if fam == 'unit' and names or any(k not in names for k in req):
+                    continue
+                try:
+                    V, o = _kw_expected_state(fam, kw, prior)
+                except Exception:  # noqa
+                    continue
+                if np.array_equal(V, box.vects) and np.array_equal(o, box.origin):
+                    impl = 'ok:' + fam
+                    break
+        except Exception as e:  # noqa
+            impl = _cls(e)
+        line = 'kw ' + ' '.join(names) if names else 'kw'
+        ctx.stats.case('kw', (tuple(sorted(names)), how), nontrivial=bool(names), sample={'keywords': names, 'via': how})
+        lines.append(line)
+        impls.append(impl)
+        infos.append((names, how))
+    outs = ctx.driver.ask_many(lines)
+    for line, impl, out, (names, how) in zip(lines, impls, outs, infos):
+        if impl != out:
+            ctx.disagree('kw:' + (out.split(':')[0]), f'Box{"(**kw)" if how == "ctor" else ".set(**kw)"} with keywords {names}: implementation '
+                         f'{impl}, model {out}', {'op': 'kw', 'keywords': names, 'via': how, 'impl': impl, 'model': out})
+
+
 def correspond(ctx):
     rng = ctx.rng
+    _kw_correspond(ctx, random.Random(ctx.seed * 104729 + 5))
     t = ctx.driver.ask('thr')
     if Fraction(t) != THR:
         ctx.disagree('thr', f'driver threshold {t} is not the double 1e-9', {'op': 'thr'})
@@ -2246,6 +2455,25 @@ def _oracle_twin(ctx, box, spec, pts, rels, viol, tag, after_mutation):
                      f'{fresh.vects.tolist()}, {fresh.origin.tolist()}')
         except Exception as e:  # noqa
             viol(f"construct:{spec['kind']}", f'{_short(spec)} on a new Box() raised {type(e).__name__}: {e}')
+    # another Box alive at the same time is another cell: defining, re-defining and reading it leaves this one alone
+    try:
+        other = am.Box()
+        other.set(vects=[[9.5, 0.0, 0.0], [1.25, 7.75, 0.0], [-2.5, 0.75, 6.25]], origin=[11.5, -13.25, 17.75])
+        other.reciprocal_vects
+        other.origin = [-3.5, 2.25, 0.125]
+        other.vects = [[0.0, 3.0, 0.0], [0.0, 0.0, 5.0], [7.0, 0.0, 0.0]]
+        other.position_cartesian_to_relative(P)
+        other.inside(P)
+        other.set(a=3.0, b=4.0, c=5.0, gamma=100.0)
+        other.set()
+    except Exception as e:  # noqa
+        viol('construct:raises', f'defining a second Box raised {type(e).__name__}: {e}')
+    d = _snap_diff(here, _snapshot(box, P, S))
+    if d is not None:
+        k, x, y = d
+        viol('state:objects-share-state', f'creating, re-defining and reading a second, independent Box changed this one: {k} was {_fmt(x)}, '
+             f'is now {_fmt(y)} (this Box was defined by {_short(spec)}{tag})')
+        return
     # overwrite what the getters handed out
     def scribble(obj, only=None):
         names = []
@@ -2528,9 +2756,9 @@ INVALID_DEFS = [
 ]
 
 # every way of re-defining an existing Box: (kind, via, with the optional origin?)
-REDEFINITIONS = [(k, v, o) for k in ('vectors', 'lengths', 'abc') for v in ('set', 'method') for o in (True, False)] \
+REDEFINITIONS = [(k, v, o) for k in ('vectors', 'lengths', 'abc') for v in ('set', 'method', 'positional') for o in (True, False)] \
     + [('vects', 'set', True), ('vects', 'set', False), ('vects', 'method', True), ('vects', 'method', False),
-       ('hilos', 'set', None), ('hilos', 'method', None), ('reset', 'set', None),
+       ('hilos', 'set', None), ('hilos', 'method', None), ('hilos', 'positional', None), ('reset', 'set', None),
        ('attr_origin', 'set', True), ('attr_origin', 'attr', True), ('attr_vects', 'attr', None)]
 
 
@@ -2542,9 +2770,9 @@ def gen_redefinition(rng, regime, kind, via, with_origin):
         o = [(_dy(rng, -8, 8) if regime == 'grid' else rng.uniform(-8, 8)) for _ in range(3)]
         return {'kind': 'attr_origin', 'via': via, 'kw': {'origin': o}, 'regime': regime}
     if kind == 'attr_vects':
-        v = gen_spec(rng, regime, kinds=['vects'], ints=False)['kw']['vects']
+        v = gen_spec(rng, regime, kinds=['vects'], ints=False, tiny=True)['kw']['vects']
         return {'kind': 'attr_vects', 'via': 'attr', 'kw': {'vects': v}, 'regime': regime, 'container': rng.choice(['list', 'array'])}
-    m = gen_spec(rng, regime, kinds=[kind], origin=bool(with_origin), nonzero_origin=True)
+    m = gen_spec(rng, regime, kinds=[kind], origin=bool(with_origin), nonzero_origin=True, tiny=True)
     if m.get('via') == 'family':
         m.pop('family', None)
         m.pop('fargs', None)
@@ -2601,7 +2829,7 @@ def _search_redefinitions(ctx, rng, nbase):
         first = True
         for (kind, via, with_origin) in order:
             m = gen_redefinition(rng, regime, kind, via, with_origin)
-            if rng.random() < 0.25 and kind not in ('reset',):
+            if kind != 'reset' and rng.random() < (0.6 if kind in ('vects', 'attr_vects') else 0.25):
                 m['alias'] = True
             ctx.stats.case('oracle:redefine', (kind, via, with_origin, base['kind'], it))
             _run_cell(ctx, base, pts, rels, [m], light=True, check_base=first)
